@@ -83,7 +83,7 @@ def ref_shaped(val, shape, partial=True):
     if isinstance(val, list):
         if shape == []:
             return True
-        return all(any(ref_shaped(x, t, False) for t in shape) for x in val)
+        return all(any(ref_shaped(x, t, partial) for t in shape) for x in val)
     return True
 
 
@@ -170,6 +170,13 @@ def calls(thorough):
                 pool.append(st)
     for st in pool:
         yield "strings.parse_int", "strings.ops{str = %s}.parse_int().unwrap()" % S(st), int(_re.match(r"[0-9]+", st).group(0))
+    # no integer at the beginning of the string: the maybe that parse_int returns holds nothing
+    for ln in (0, 1, 2):
+        for t in itertools.product(alpha, repeat=ln):
+            st = "".join(t)
+            if st == "" or st[0] not in "109":
+                yield "strings.parse_int-nothing-to-parse", "strings.ops{str = %s}.parse_int().is_null()" % S(st), True
+                yield "strings.parse_int-nothing-to-parse", "strings.ops{str = %s}.parse_int().or(seven).unwrap()" % S(st), 7
     # functional.maybe
     for v in (None, 1):
         s = S(v)
@@ -199,6 +206,15 @@ def calls(thorough):
                 yield "schema.shaped-list", "schema.shaped{val = %s, shape = %s}" % (S(list(t)), S(sh)), ref_shaped(list(t), sh, True)
         for t in itertools.product(lelems, repeat=2):
             yield "schema.shaped-list-nested", "schema.shaped{val = %s, shape = %s}" % (S({"l": list(t)}), S({"l": sh})), ref_shaped({"l": list(t)}, {"l": sh}, True)
+    # the partial flag reaches the tuples inside a list as it reaches the tuples inside a tuple
+    telems = [{"a": 1}, {"a": 1, "b": "y"}, {"a": "x"}, {"b": "y"}, 1]
+    for sh in ([{"a": 0}], [{"a": 0}, 0], [{"a": 0, "b": ""}]):
+        for n in (1, 2):
+            for t in itertools.product(telems, repeat=n):
+                for partial in (True, False):
+                    yield ("schema.shaped-list-partial", "schema.shaped{val = %s, shape = %s, partial = %s}" % (S(list(t)), S(sh), "true" if partial else "false"),
+                           ref_shaped(list(t), sh, partial))
+                yield "schema.shaped-list-partial", "schema.shaped{val = %s, shape = %s}" % (S({"l": list(t)}), S({"l": sh})), ref_shaped({"l": list(t)}, {"l": sh}, True)
     # a module-style helper called inside a tuple copy, and `self` used by a later field of the same copy
     yield "helpers-inside-a-copy", "cbase{first = lists.slice{end = 1, list = [7, 8, 9]}, n = lists.len(self.xs)}.n", 3
     yield "helpers-inside-a-copy", "cbase{parts = strings.ops{str = \"a-b\"}.split_on{on = \"-\"}, n = lists.len(self.xs)}.n", 3
